@@ -116,6 +116,10 @@ func classify(e *expect, problem string, wireChunked bool, got []byte, stray []b
 	case e.sizeLost():
 		// SetBodyStream ran while the status was 1xx/204/304; the status was changed back afterwards.
 		return "stream-size-lost-under-nobody-status"
+	case e.delCLOnStream() && problem != "body-not-prefix" && problem != "overrun":
+		// no length announced (or chunked coding announced and no chunk sent), the stream yields nothing,
+		// so nothing aborts the connection: a response without end on a connection that is kept
+		return "del-content-length-stream-size-not-announced"
 	case problem == "stray" && e.bodiless() && e.kind == "stream" && wireChunked && trailerSectionRE.Match(stray):
 		// bodiless response (HEAD/204/304) whose head announces chunked coding, followed by a bare trailer section
 		return "head-chunked-stray-crlf"
@@ -286,6 +290,12 @@ func judge(cs *caseSpec, wire []byte, calls []int, closed bool) *verdict {
 					}
 					if !bytes.HasPrefix(e.content, m.Body) {
 						fail(i, e, "body-not-prefix", "decoded chunks are not a prefix of the stream", m.Body, nil)
+						return v
+					}
+				case m.BodyKind == "close":
+					// no length announced at all (withdrawn by hand): delimited by the close that must follow
+					if !bytes.HasPrefix(e.content, raw) {
+						fail(i, e, "body-not-prefix", "bytes after the head are not a prefix of the stream: "+mon.Short(raw, 80), raw, nil)
 						return v
 					}
 				default:
